@@ -87,6 +87,7 @@ PAYLOADS = {
     "braces": '{x} {0} {{y}} }{', "pct": '%s %d %(a)s %', "hash": 'x # noqa: E501', "hash-nl": '#\nimport os',
     "inject": '"""\nimport os\nX = 1\n"""', "inject-sq": "'''\nimport os\n'''", "inject-code": '"; import os; x = "', "inject-cmt": 'text\n    pass\nclass Z: pass',
     "uni": 'é日本', "emoji": '😀', "rtl": 'a‮b', "zwsp": 'a​b', "bom": '﻿x', "combining": 'é', "nbsp": 'a b', "surrogate-free-astral": '\U0001f600\U00010348',
+    "alnum-not-ident": 'area m² ½ ① ₂', "digits-first": "9lives ²",
     "long": "word " * 60, "ws-only": "   ", "lead-ws": "   lead", "colon": "Args: x: y", "keyword": "class", "dunder": "__init__", "digits": "123", "dot-slash": "../../etc/passwd",
 }
-QUICK = ["dq", "dq-end", "tq", "tq-end", "q5", "bs", "bs-end", "bs-dq", "esc", "nl", "cr", "crlf", "ff", "ls", "nul", "braces", "hash-nl", "inject", "inject-code", "uni", "emoji", "sq3"]
+QUICK = ["dq", "dq-end", "tq", "tq-end", "q5", "bs", "bs-end", "bs-dq", "esc", "nl", "cr", "crlf", "ff", "ls", "nul", "braces", "hash-nl", "inject", "inject-code", "uni", "emoji", "sq3", "alnum-not-ident"]
